@@ -500,6 +500,13 @@ def gen_m2(rnd, tier):
 def directed_m2():
     """hand-aimed cases: the witnesses of F-C08-b / F-C08-c and the unit test's shapes"""
     out = []
+    # config validation of day definitions under a watchdog: ordinary forms, and n = 0 ("monday 0"), which
+    # FindNthWeekday never finishes in a release build (ASSERT(n > 0) is compiled out)
+    for s, a in (('monday 2', 'w.1.2.-1'), ('monday -1 may', 'w.1.-1.4'), ('february 3', 'm.1.3'), ('day -1', 'm.-1.-1'),
+                 ('2034-03-26', 'd.2034.3.26'), ('day 1 - 15 / 2', 'm.-1.1~m.-1.15/2')):
+        out.append({'lines': ['now %d' % T0, 'tp_parse k=%s ast=%s' % (hx(s), a)], 'tags': {'family': 'm2-directed-validate'}})
+    for s, a in (('monday 0', 'w.1.z.-1'), ('friday 0 march', 'w.5.z.2')):
+        out.append({'lines': ['now %d' % T0, 'tp_parse k=%s ast=%s limit=3' % (hx(s), a)], 'tags': {'family': 'm2-directed-validate-nth-zero'}})
     # F-C08-b: Saturday 03:00 local, "friday" = "22:00-06:00", fresh window
     zn = 'Europe/Berlin'
     # 2033-06-04 is a Saturday
@@ -573,6 +580,12 @@ def classify(case, detail, impl_lines):
         return 'crash'
     if 'tz-table' in detail:
         return 'tz-table'
+    if 'day-definition-never-finishes' in detail:
+        return 'nth-weekday-zero-hang'
+    if 'calendar-hypotheses' in detail:
+        return 'calendar-hypotheses'
+    if 'op=tp_parse' in detail:
+        return 'parse'
     if 'calendar' in detail:
         if detail.endswith('class=1'):
             return 'wrap-first-day'
@@ -620,6 +633,10 @@ def _canon_segs(field, vb, ve):
 def canon(lines):
     res = []
     for l in lines:
+        if l == 'tp_parse res=hang':
+            # a definition that is not a day definition ("monday 0"): never finishing and being rejected are both
+            # "not computed" for the correspondence; the oracle (raw trace) tells them apart
+            l = 'tp_parse res=rejected'
         if l.startswith('tp ') and ' segs=' in l:
             pre, rest = l.split(' segs=', 1)
             f, tail = rest.split(' ', 1)
@@ -649,6 +666,14 @@ def extra_stats(cases, impl):
                 bits = l.rsplit('in=', 1)[-1]
                 inside += bits.count('1')
                 outside += bits.count('0')
+    legacy = set()
+    hyp_steps = 0
+    for c in cases:
+        names = {l.split('name=')[1].split()[0] for l in c['lines'] if l.startswith('tp_range ')}
+        hyp_steps += sum(1 for l in c['lines'] if l.startswith('tp_upd ') and l.split('name=')[1].split()[0] in names)
     return {'zones': dict(zones), 'windows_on_dst_transition_days': trw,
+            'calendar_hypotheses_checked_by_computation': {
+                'what': 'per UpdateRegion on a LegacyTimePeriod period the oracle evaluates tp_cal_hyps_ok: the offset table is ascending with transitions >= 2 days apart and |offset| < 24 h (tp_tab_ok), and every local time mktime is asked about for the window (00:00 of the visited days, of the day after the last one and of each day definition\'s first / day-after-last day, both boundaries of every time range) exists exactly once and tp_tab_mk returns its instant (tp_tab_good_b); a failure is an oracle hit of class calendar-hypotheses',
+                'update_steps_checked': hyp_steps, 'failures': 'none unless an oracle hit of class calendar-hypotheses is reported'},
             'observed_states_by_segment_count(4=4+)': {str(k): v for k, v in sorted(nseg.items())},
             'probe_evaluations_inside': inside, 'probe_evaluations_outside': outside}
